@@ -32,6 +32,8 @@ CHECKS = {
          "exhaustive enumeration of bounded input sequences and of a fault menu on the real code; no panic/abort/hang, atomic failure"),
  "C16": ("iteration-order explorer over the cfg-gated verif_map hook: every schedule of map-traversal permutations with <= d non-identity choices on three many-security ledgers; byte equality of text/JSON/full-precision report (and PDF text) with the identity execution; stated orders; repeated CLI processes as an additional sample",
          "deviation-bounded exhaustive exploration of hash-map iteration orders (controlled scheduler over a cfg-gated hook) on the real code"),
+ "C17": ("half-penny lattice of gains/proceeds/costs/fees/average costs x magnitudes x quantities: every figure of the plain-text report, the JSON report, the compiled PDF's text runs (hook verif_text_runs) and MCP calculate_report/explain_matching parsed back and compared with the full-precision report; lists of years/disposals/legs/holdings compared",
+         "exhaustive enumeration of a value lattice on the real formatters (incl. the real Typst compile via a cfg-gated hook) vs exact rounding"),
  "C18": ("every multiset of <= k rows over a 24-row Schwab alphabet x all row orders x all date-disjoint cuts, converted by the real converter and compared with a reference row->line map; output parsed by an independent recogniser and by the tool; CLI convert|report",
          "exhaustive enumeration of bounded row sequences x all row orders x all chunk cuts on the real converter vs reference map"),
  "C19": ("all 4096 subsets of vest-entry offsets -9..+2 x 5 entry-kind patterns x symbol case x 5 deposit dates, converted by the real converter and compared with a five-line reference look-up",
